@@ -496,7 +496,16 @@ class TimeDeltaUnmarshaller(AbstractUnmarshaller[TimeDeltaT], tp.Generic[TimeDel
         if td.__class__ is self.t:
             return td  # type: ignore[return-value]
 
-        return self.t(seconds=td.total_seconds())
+        # Reconstruct from the exact integer fields of the underlying timedelta
+        #   (float total seconds lose microseconds for very long durations).
+        #   The parser's Duration overrides these attributes with float-derived
+        #   values, so read the base class' own descriptors.
+        base = datetime.timedelta
+        return self.t(
+            days=base.days.__get__(td),
+            seconds=base.seconds.__get__(td),
+            microseconds=base.microseconds.__get__(td),
+        )
 
 
 UUIDT = tp.TypeVar("UUIDT", bound=uuid.UUID)
